@@ -82,13 +82,56 @@ fn main() {
     for v in ["version_2", "version_3", "version_5", "version_6", "version_7", "version_8"] {
         let p = format!("{}/wow_login_messages/src/logon/{}/opcodes.rs", repo, v);
         println!("cargo:rerun-if-changed={}", p);
-        let (c, s) = scan(&p);
-        for (dir, names) in [("client", &c), ("server", &s)] {
-            writeln!(out, "pub const LOGIN_NAMES_{}_{}: &[&str] = &[", v.to_uppercase(), dir.to_uppercase()).unwrap();
-            for n in names.iter() {
-                writeln!(out, "    \"{}\",", n).unwrap();
+        let src = std::fs::read_to_string(&p).unwrap();
+        for (dir, opty) in [("client", "ClientOpcodeMessage"), ("server", "ServerOpcodeMessage")] {
+            // enum body: VARIANT(TYPE), or VARIANT,
+            let start = src.find(&format!("pub enum {} {{", opty)).expect("enum");
+            let body = &src[start..];
+            let end = body.find("\n}").unwrap();
+            let mut variants: Vec<(String, Option<String>)> = Vec::new();
+            for l in body[..end].lines().skip(1) {
+                let l = l.trim().trim_end_matches(',');
+                if l.is_empty() {
+                    continue;
+                }
+                if let Some((a, b)) = l.split_once('(') {
+                    variants.push((a.to_string(), Some(b.trim_end_matches(')').to_string())));
+                } else {
+                    variants.push((l.to_string(), None));
+                }
+            }
+            let all_dir = format!("{}/wow_login_messages/src/logon/all", repo);
+            let path_of = |ty: &str| -> String {
+                let f = format!("{}/{}.rs", all_dir, ty.to_lowercase());
+                if Path::new(&f).exists() {
+                    format!("wow_login_messages::all::{}", ty)
+                } else {
+                    format!("wow_login_messages::{}::{}", v, ty)
+                }
+            };
+            let tag = format!("{}_{}", v, dir);
+            writeln!(out, "pub const LOGIN_NAMES_{}: &[&str] = &[", tag.to_uppercase()).unwrap();
+            for (var, ty) in &variants {
+                writeln!(out, "    \"{}\",", ty.clone().unwrap_or(var.clone())).unwrap();
             }
             writeln!(out, "];").unwrap();
+            // writer through the concrete type
+            writeln!(out, "pub fn login_write_{tag}(m: &wow_login_messages::{v}::opcodes::{opty}, fl: Flavour, w: &mut SimWriter<'_>, budget: u64) -> WriteOut {{\n    use wow_login_messages::{v}::opcodes::{opty} as T;\n    match m {{").unwrap();
+            for (var, ty) in &variants {
+                match ty {
+                    Some(_) => writeln!(out, "        T::{var}(x) => login_write_one!(x, fl, w, budget),").unwrap(),
+                    None => writeln!(out, "        T::{var} => {{ let x = {}::default(); login_write_one!(&x, fl, w, budget) }}", path_of(var)).unwrap(),
+                }
+            }
+            writeln!(out, "    }}\n}}").unwrap();
+            // typed expect helper
+            writeln!(out, "pub fn login_expect_{tag}(name: &str, fl: Flavour, rd: &mut SimReader<'_>, budget: u64) -> Option<LoginOut> {{\n    match name {{").unwrap();
+            for (var, ty) in &variants {
+                let tyn = ty.clone().unwrap_or(var.clone());
+                writeln!(out, "        \"{tyn}\" => Some(login_expect_one!({}, {dir}, fl, rd, budget, |m| login_finish_{tag}(wow_login_messages::{v}::opcodes::{opty}::from(m)))),", path_of(&tyn)).unwrap();
+            }
+            writeln!(out, "        _ => None,\n    }}\n}}").unwrap();
+            writeln!(out, "pub fn login_finish_{tag}(m: wow_login_messages::{v}::opcodes::{opty}) -> (String, Vec<u8>) {{\n    let s = Schedule::whole();\n    let mut w = SimWriter::new(&s);\n    let _ = login_write_{tag}(&m, Flavour::Sync, &mut w, 0);\n    (format!(\"{{:?}}\", m), w.data)\n}}").unwrap();
         }
     }
     std::fs::write(Path::new(&out_dir).join("login_dispatch.rs"), out).unwrap();
